@@ -1547,7 +1547,7 @@ def nanmedian(a, axis=None, keepdims=False, out=None):
 
     result = a.map_blocks(
         func,
-        axis=axis,
+        axis=tuple(axis),
         drop_axis=axis if not keepdims else None,
         chunks=(
             [1 if ax in axis else c for ax, c in enumerate(a.chunks)]
